@@ -84,7 +84,11 @@ func (th *thread) start() {
 				}()
 				return
 			}
-			r.finish(&abortPath{"internal", fmt.Sprintf("%v", p)})
+			where := ""
+			if th.top != nil {
+				where = fmt.Sprintf(" in %v", stackTrace(th.top))
+			}
+			r.finish(&abortPath{"internal", fmt.Sprintf("%v%s", p, where)})
 		}()
 		th.waitBaton()
 		call(th, nil, 0, th.fn, th.args)
